@@ -45,6 +45,14 @@ def drv_one(v, present):
     return out
 
 
+def drv_triple(v, ka, kb, kc):
+    e = Entry("article", "k", [Field("month", v)])
+    lib = MWS[kc](True).transform(MWS[kb](True).transform(MWS[ka](True).transform(Library([e]))))
+    e2 = Entry("article", "k", [Field("month", v)])
+    lib2 = MWS[kc](True).transform(Library([e2]))
+    return lib.blocks, lib2.blocks
+
+
 def drv_pair(v, ka, kb):
     e = Entry("article", "k", [Field("month", v)])
     lib = MWS[kb](True).transform(MWS[ka](True).transform(Library([e])))
@@ -237,6 +245,43 @@ def task_pair(L, ka, kb, family="word"):
     return rec.result(L=L, worlds=len(worlds))
 
 
+def task_triple(L, ka, kb, kc):
+    """applying any of them after the others equals applying the last one alone (also when a kind repeats)"""
+    eng = Engine()
+    rec = Recorder(eng)
+    v = eng.sym_str("c", L, LETTERS + EXTRA) if L else eng.sym_int("m", 1, 12)
+    E = eng.I.models.eq_simple
+    worlds = eng.run(drv_triple, [v, ka, kb, kc])
+
+    def rp(m):
+        import logging
+        logging.disable(logging.CRITICAL)
+        val = eng.model_value(m, v)
+        try:
+            a, b = drv_triple(val, ka, kb, kc)
+        except Exception as ex:  # noqa
+            return {"input": val, "observed": f"{ka},{kb},{kc}: raised {type(ex).__name__}: {ex}", "expected": "no exception"}
+        if month_of_native(val) is None:
+            return None
+        x, y = value_of(a)[1], value_of(b)[1]
+        if type(x) is type(y) and x == y:
+            return None
+        return {"input": val, "observed": f"{kc}({kb}({ka}(v))) = {x!r}", "expected": f"{kc}(v) = {y!r}"}
+    for W in worlds:
+        if W.exc is not None:
+            rec.require(W, True, "triple-no-exception", rp)
+            continue
+        a, b = W.result
+        (sa, x), (sb, y) = value_of(a), value_of(b)
+        if sa != "ok" or sb != "ok":
+            rec.require(W, True, "triple-structure", rp)
+            continue
+        anym = b_any(denotes(v, m) for m in range(1, 13)) if L else True
+        same = (model_t(x) is model_t(y)) and E(x, y)
+        rec.require(W, b_and(anym, b_not(same)), "compose-three", rp)
+    return rec.result(worlds=len(worlds))
+
+
 def task_pair_int(ka, kb):
     eng = Engine()
     rec = Recorder(eng)
@@ -266,7 +311,7 @@ def main():
     LD = 4 if chk.tier == "quick" else 5
     chk.bounds = {"word family": f"every string of length 0..{LS} over {len(LETTERS + EXTRA)} symbols {LETTERS + EXTRA!r}",
                   "numeric family": f"every string of length 1..{LD} over {DIGITS!r} (leading zeros, non-ASCII digit characters)",
-                  "int values": list(ir), "pairs": "all 9 ordered pairs on both string families and ints 1..12"}
+                  "int values": list(ir), "pairs": "all 9 ordered pairs on both string families and ints 1..12; all 27 ordered triples on ints 1..12 and strings of length 1..3"}
     chk.assumptions = ["values outside the alphabet / longer than 9 characters / non-str non-int values are outside the claim",
                        "a 'digit string' in the statement is read as ASCII decimal digits; non-ASCII digit characters (² ٣) are non-months and must be returned unchanged without an exception"]
     chk.expected_vacuity = ["int-converted", "abbr-converted", "long-converted", "pair-on-month"]
@@ -287,6 +332,11 @@ def main():
                 chk.add_task(f"pair-{ka}-{kb}-L{L}", task_pair, L=L, ka=ka, kb=kb)
             for L in (1, 2):
                 chk.add_task(f"pairnum-{ka}-{kb}-L{L}", task_pair, L=L, ka=ka, kb=kb, family="num")
+    for ka in MWS:
+        for kb in MWS:
+            for kc in MWS:
+                for L in (0, 1, 2, 3):
+                    chk.add_task(f"triple-{ka}-{kb}-{kc}-L{L}", task_triple, L=L, ka=ka, kb=kb, kc=kc)
     chk.run()
 
 
